@@ -135,7 +135,7 @@ def run(ctx):  # noqa: C901, PLR0912, PLR0915
             val = n.stmt.value if isinstance(n.stmt, ast.Assign) else None
             ok_val = isinstance(n.stmt, ast.Assign) and unparse(val) == 'self.new_mdib_version'
             facts = g.facts_at(n)
-            guards = [f for f in facts if f[1] is True and f[0] in guard_names]
+            guards = [gn for gn in sorted(guard_names) if (gn, True) in facts]   # as written or through a local alias
             ctx.ob('C02.R1', f'version write {unparse(n.stmt)}', ok_val and bool(guards),
                    'mdib_version is written as self.new_mdib_version under the non-emptiness test of the update dict'
                    if ok_val and guards else
@@ -155,7 +155,7 @@ def run(ctx):  # noqa: C901, PLR0912, PLR0915
                 if nm in TABLE_MUTATORS or nm in ('_handle_state_updates', '_update_corresponding_state',
                                                   '_increment_parent_descriptor_version'):
                     facts = g.facts_at(n)
-                    ok = any(f[1] is True and f[0] in guard_names for f in facts)
+                    ok = any((gn, True) in facts for gn in guard_names)
                     ctx.ob('C02.R1', f'effect {nm} guarded', ok,
                            f'table effect {nm}() happens only when the transaction is non-empty', fi=pt, node=c,
                            witness={'facts': facts})
@@ -339,8 +339,8 @@ def run(ctx):  # noqa: C901, PLR0912, PLR0915
         ok = bool(incs)
         for n in incs:
             facts = g.facts_at(n)
-            ok = ok and any(txt.endswith(f'parent_handle in {lst}') and pol is False for txt, pol in facts) \
-                and any(txt.endswith('parent_handle is None') and pol is False for txt, pol in facts)
+            ok = ok and any(txt.endswith(f'parent_handle in {lst}') and pol is False for txt, pol in facts.both()) \
+                and any(txt.endswith('parent_handle is None') and pol is False for txt, pol in facts.both())
         ctx.ob('C02.R4', f'{what} -> parent version', ok,
                f'on {what} the parent DescriptorVersion is raised unless the parent is part of the same {what}',
                fi=dpt, witness=[g.facts_at(n) for n in incs])
@@ -447,7 +447,11 @@ def run(ctx):  # noqa: C901, PLR0912, PLR0915
             if call_name(c) == 'pop' and isinstance(c.func, ast.Attribute) and c.args:
                 keys.append((c.func.value, c.args[0]))
         for container, key in keys:
-            if REMOVED in dp.sources(key) and any(s_.startswith('self.') and s_.endswith('_state_updates')
+            # the key is computed from the removed handles, or the removal happens under a test on them
+            ctl = set()
+            for t in (dp._controlling_tests(n.stmt) if n.stmt is not None else []):  # noqa: SLF001
+                ctl |= dp.sources(t)
+            if (REMOVED in dp.sources(key) or REMOVED in ctl) and any(s_.startswith('self.') and s_.endswith('_state_updates')
                                                   for s_ in dp.sources(container)):
                 filt.append(n)
     # the filtering (its innermost loop, when it sits in one that does not also contain the write) precedes the write
@@ -465,6 +469,25 @@ def run(ctx):  # noqa: C901, PLR0912, PLR0915
            'it removed: "update a child + delete its parent" or "delete a child + delete its grandparent" in one '
            'transaction re-adds a state whose descriptor no longer exists (orphan state)', fi=dpt,
            witness={'carriers': sorted(carriers), 'filters': [f.text()[:60] for f in filt]})
+
+    # the parent whose version is raised for an added / removed child is the descriptor stored in the MDIB - on every
+    # definition of the local, not a transaction copy (whose update may already have been applied: the increment would then
+    # go to a left-over object and the state would be pointed at it)
+    ip = repo.func(f'{TR}.DescriptorTransaction._increment_parent_descriptor_version')
+    res_ip = Resident(ip.node)
+    la_ip = local_assignments(ip.node)
+    incs = [c for c in calls_in(ip.node, 'increment_descriptor_version')]
+    ok = bool(incs)
+    wit = {}
+    for c in incs:
+        recv = c.func.value
+        vals = la_ip.get(recv.id, []) if isinstance(recv, ast.Name) else [recv]
+        wit[unparse(recv)] = [unparse(v) for v in vals]
+        ok = ok and bool(vals) and all(res_ip.is_resident(v) for v in vals)
+    ctx.ob('C02.R4', 'parent version is raised on the MDIB descriptor', ok,
+           '_increment_parent_descriptor_version raises the version of the descriptor stored in the MDIB' if ok else
+           f'_increment_parent_descriptor_version raises the version of an object that is not (always) the MDIB descriptor '
+           f'({wit}): the reported DescriptorVersion and the one the state copies differ from the stored one', fi=ip, witness=wit)
 
     # ------------------------------------------------------------ R5 single writer
     regs = [w for w in yields[0].withs]
